@@ -9,7 +9,7 @@
    is a hypothesis of the convergence theorem; these are explored on real runs by tools/props/C19.py. *)
 From Coq Require Import ZArith List Bool Arith Reals.
 From Coquelicot Require Import Coquelicot.
-From Yad Require Import Base Interp InterpTheorems InterpReal Conv ConvGen ConvError.
+From Yad Require Import Base Interp InterpTheorems InterpReal InterpDeriv GlobalInterp GlobalLipschitz GridExample Conv ConvGen ConvError.
 Import ListNotations.
 Open Scope nat_scope.
 
@@ -94,6 +94,85 @@ Theorem C19_prediction_error_improper_partial k f If x E Le W Ws v w : (0 < x < 
   (Rabs (v - w) <= (W + Rabs (r_loc k x)) * E + Ws * (Le * x + E))%R.
 Proof. exact (prediction_error_gen k f If x E Le W Ws v w). Qed.
 Print Assumptions C19_prediction_error_improper_partial.
+(* ---------------- the Lipschitz constant of the interpolation error (the hypothesis Le of the prediction-error theorems), derived inside an area:
+   the derivative of the block interpolant is exact on polynomials of degree <= d too, so Lebesgue's argument gives
+   |(I f)' - f'| <= Lam1 M h^(d+1)/(d+1)! + M h^d/d!,  Lam1 >= sum_j |l_j'|;  by the mean-value theorem this is a Lipschitz constant of I f - f on the area *)
+Theorem C19_derivative_error_smooth vs f a b M t : @alldiff RFld vs -> 2 <= length vs <= 5 -> (a < b)%R ->
+  (forall j, j < length vs -> (a <= nth j vs 0 <= b)%R) -> (a <= t <= b)%R ->
+  (forall u, (a <= u <= b)%R -> forall k, k <= length vs -> ex_derive_n f k u) ->
+  (forall u, (a < u < b)%R -> (Rabs (Derive_n f (length vs) u) <= M)%R) ->
+  (Rabs (Derive (interp vs f) t - Derive f t)
+   <= lebesgue1 vs t * (M * (b - a) ^ length vs / INR (fact (length vs))) + M * (b - a) ^ (length vs - 1) / INR (fact (length vs - 1)))%R.
+Proof. exact (interp_derivative_error_smooth vs f a b M t). Qed.
+Print Assumptions C19_derivative_error_smooth.
+Theorem C19_error_lipschitz_in_area vs f a b M Lam1 u v : @alldiff RFld vs -> 2 <= length vs <= 5 -> (a < b)%R ->
+  (forall j, j < length vs -> (a <= nth j vs 0 <= b)%R) -> (a <= u <= b)%R -> (a <= v <= b)%R ->
+  (forall w, (a <= w <= b)%R -> forall k, k <= length vs -> ex_derive_n f k w) ->
+  (forall w, (a < w < b)%R -> (Rabs (Derive_n f (length vs) w) <= M)%R) ->
+  (forall w, (a <= w <= b)%R -> (lebesgue1 vs w <= Lam1)%R) ->
+  (Rabs ((interp vs f u - f u) - (interp vs f v - f v))
+   <= (Lam1 * (M * (b - a) ^ length vs / INR (fact (length vs))) + M * (b - a) ^ (length vs - 1) / INR (fact (length vs - 1))) * Rabs (u - v))%R.
+Proof. exact (interp_error_lipschitz vs f a b M Lam1 u v). Qed.
+Print Assumptions C19_error_lipschitz_in_area.
+(* gluing the areas: Lipschitz on every closed piece of an increasing list of break points => Lipschitz on the whole range, same constant *)
+Theorem C19_piecewise_lipschitz g D l : (0 <= D)%R -> increasing l -> pieces_lipschitz g D l ->
+  forall u v, (hd 0 l <= u <= last l 0)%R -> (hd 0 l <= v <= last l 0)%R -> (Rabs (g u - g v) <= D * Rabs (u - v))%R.
+Proof. exact (piecewise_lipschitz g D l). Qed.
+Print Assumptions C19_piecewise_lipschitz.
+
+(* ---------------- the whole grid.  eko's piecewise basis (Interp.basis_eval, increasing grid) on the closed area [x_i, x_(i+1)]: the sum over
+   all basis functions is the block interpolant of that area *)
+Theorem C19_global_interpolant_on_area ns d i f t : sorted ns -> 1 <= d -> d < length ns -> i + 1 < length ns ->
+  (nth i ns 0 <= t <= nth (S i) ns 0)%R -> Iglobal ns d f t = interp (@block_nodes RFld ns d i) f t.
+Proof. exact (global_is_block_interpolant_closed ns d i f t). Qed.
+Print Assumptions C19_global_interpolant_on_area.
+Theorem C19_global_error_sup ns d f M Lam h t : sorted ns -> 1 <= d <= 4 -> d < length ns -> (0 <= Lam)%R ->
+  (forall w, (nth 0 ns 0 <= w <= nth (length ns - 1) ns 0)%R -> forall k, k <= S d -> ex_derive_n f k w) ->
+  (forall w, (nth 0 ns 0 < w < nth (length ns - 1) ns 0)%R -> (Rabs (Derive_n f (S d) w) <= M)%R) ->
+  (forall i, i + 1 < length ns ->
+     (nth (snd (block (length ns) d i)) ns 0 - nth (fst (block (length ns) d i)) ns 0 <= h)%R /\
+     forall w, (nth (fst (block (length ns) d i)) ns 0 <= w <= nth (snd (block (length ns) d i)) ns 0)%R -> (lebesgue (@block_nodes RFld ns d i) w <= Lam)%R) ->
+  (nth 0 ns 0 <= t <= nth (length ns - 1) ns 0)%R ->
+  (Rabs (Iglobal ns d f t - f t) <= (1 + Lam) * (M * h ^ S d / INR (fact (S d))))%R.
+Proof. exact (global_error_sup ns d f M Lam h t). Qed.
+Print Assumptions C19_global_error_sup.
+Theorem C19_global_error_lipschitz ns d f M Lam1 h : sorted ns -> 1 <= d <= 4 -> d < length ns -> (0 <= Lam1)%R ->
+  (forall w, (nth 0 ns 0 <= w <= nth (length ns - 1) ns 0)%R -> forall k, k <= S d -> ex_derive_n f k w) ->
+  (forall w, (nth 0 ns 0 < w < nth (length ns - 1) ns 0)%R -> (Rabs (Derive_n f (S d) w) <= M)%R) ->
+  (forall i, i + 1 < length ns ->
+     (nth (snd (block (length ns) d i)) ns 0 - nth (fst (block (length ns) d i)) ns 0 <= h)%R /\
+     forall w, (nth (fst (block (length ns) d i)) ns 0 <= w <= nth (snd (block (length ns) d i)) ns 0)%R -> (lebesgue1 (@block_nodes RFld ns d i) w <= Lam1)%R) ->
+  forall u v, (nth 0 ns 0 <= u <= nth (length ns - 1) ns 0)%R -> (nth 0 ns 0 <= v <= nth (length ns - 1) ns 0)%R ->
+  (Rabs ((Iglobal ns d f u - f u) - (Iglobal ns d f v - f v)) <= (Lam1 * (M * h ^ S d / INR (fact (S d))) + M * h ^ d / INR (fact d)) * Rabs (u - v))%R.
+Proof. exact (global_error_lipschitz ns d f M Lam1 h). Qed.
+Print Assumptions C19_global_error_lipschitz.
+(* all together: the prediction from the node values of a smooth f vs the exact convolution, for any kernel triple (improper integrals) *)
+Theorem C19_prediction_error_smooth_grid (k : rsl) ns d f M Lam Lam1 h x W Ws v w : sorted ns -> 1 <= d <= 4 -> d < length ns -> (0 <= Lam)%R -> (0 <= Lam1)%R ->
+  (nth 0 ns 0 <= x)%R -> (0 < x < 1)%R -> nth (length ns - 1) ns 0%R = 1%R ->
+  (forall u, (nth 0 ns 0 <= u <= 1)%R -> forall j, j <= S d -> ex_derive_n f j u) ->
+  (forall u, (nth 0 ns 0 < u < 1)%R -> (Rabs (Derive_n f (S d) u) <= M)%R) ->
+  (forall i, i + 1 < length ns ->
+     (nth (snd (block (length ns) d i)) ns 0 - nth (fst (block (length ns) d i)) ns 0 <= h)%R /\
+     forall u, (nth (fst (block (length ns) d i)) ns 0 <= u <= nth (snd (block (length ns) d i)) ns 0)%R ->
+       (lebesgue (@block_nodes RFld ns d i) u <= Lam)%R /\ (lebesgue1 (@block_nodes RFld ns d i) u <= Lam1)%R) ->
+  is_conv k (Iglobal ns d f) x v -> is_conv k f x w ->
+  is_RInt_gen (fun z => (Rabs (r_reg k z) / z)%R) (at_point x) (at_left 1) W ->
+  is_RInt_gen (fun z => (Rabs (r_sing k z) * ((1 - z) / (z * z)))%R) (at_point x) (at_left 1) Ws ->
+  (Rabs (v - w) <= (W + Rabs (r_loc k x)) * ((1 + Lam) * (M * h ^ S d / INR (fact (S d))))
+                  + Ws * ((Lam1 * (M * h ^ S d / INR (fact (S d))) + M * h ^ d / INR (fact d)) * x + (1 + Lam) * (M * h ^ S d / INR (fact (S d)))))%R.
+Proof. exact (prediction_error_smooth_grid k ns d f M Lam Lam1 h x W Ws v w). Qed.
+Print Assumptions C19_prediction_error_smooth_grid.
+
+(* non-vacuity of the hypotheses of the whole-grid theorems: the grid [1/4; 1/2; 1], linear interpolation, f = exp, h = 1/2, M = 3, Lam = 1, Lam1 = 8 *)
+Example C19_grid_hypotheses_example :
+  sorted gex /\ 1 <= 1 <= 4 /\ 1 < length gex /\ nth (length gex - 1) gex 0%R = 1%R /\
+  (forall u, (nth 0 gex 0 <= u <= 1)%R -> forall j, j <= 2 -> ex_derive_n exp j u) /\
+  (forall u, (nth 0 gex 0 < u < 1)%R -> (Rabs (Derive_n exp 2 u) <= 3)%R) /\
+  (forall i, i + 1 < length gex ->
+     (nth (snd (block (length gex) 1 i)) gex 0 - nth (fst (block (length gex) 1 i)) gex 0 <= 1 / 2)%R /\
+     forall u, (nth (fst (block (length gex) 1 i)) gex 0 <= u <= nth (snd (block (length gex) 1 i)) gex 0)%R ->
+       (lebesgue (@block_nodes RFld gex 1 i) u <= 1)%R /\ (lebesgue1 (@block_nodes RFld gex 1 i) u <= 8)%R).
+Proof. exact grid_hypotheses_hold. Qed.
 (* non-vacuity of the smoothness hypotheses: exp on three nodes *)
 Example C19_error_example t : (0 <= t <= 1)%R ->
   (Rabs (interp [0; 1 / 2; 1]%R exp t - exp t) <= (1 + lebesgue [0; 1 / 2; 1]%R t) * (3 * (1 - 0) ^ 3 / INR (fact 3)))%R.
